@@ -450,6 +450,163 @@ def r6_every_oms(ctx):
 
 
 
+def _end_of_walk(fnode, gen, NET, ND, case):
+    """abstract run of find_first_node / find_last_node for one of two cases of the span walk `gen(NET, ND)`: 'empty' (no
+    element) or 'many' (FIRST ... LAST, at least two, all distinct).  Values: NODE (the argument), FIRST, LAST, WALK (the
+    walk as an iterator or a sequence), booleans, ints (lengths: 0 / 'N'), '?' (not modelled).  Returns the set of values
+    the function can return in that case ('?' whenever a construct is outside the modelled fragment, 'RAISE' for an
+    index into the empty walk)."""
+    many = case == 'many'
+    out = set()
+
+    def ev(e, env):
+        if isinstance(e, ast.Name):
+            return env.get(e.id, 'NODE' if e.id == ND else '?')
+        if isinstance(e, ast.Constant):
+            return e.value if isinstance(e.value, (bool, int)) or e.value is None else '?'
+        if isinstance(e, ast.Call):
+            fn_ = ast.unparse(e.func)
+            if fn_ == gen and len(e.args) == 2 and not e.keywords and ast.unparse(e.args[0]) == NET and ev(e.args[1], env) == 'NODE':
+                return 'WALK'
+            if fn_ in ('list', 'tuple') and len(e.args) == 1 and not e.keywords:
+                return 'WALK' if ev(e.args[0], env) == 'WALK' else '?'
+            if fn_ == 'len' and len(e.args) == 1 and ev(e.args[0], env) == 'WALK':
+                return 'N' if many else 0
+            if fn_ == 'bool' and len(e.args) == 1:
+                return truth(ev(e.args[0], env))
+            return '?'
+        if isinstance(e, ast.Subscript) and ev(e.value, env) == 'WALK':
+            i = e.slice
+            ix = ast.unparse(i).replace(' ', '')
+            if ix in ('-1',) or (isinstance(i, ast.BinOp) and isinstance(i.op, ast.Sub) and ev(i.left, env) == 'N' and ix.endswith('-1')):
+                return 'LAST' if many else 'RAISE'
+            if ix == '0':
+                return 'FIRST' if many else 'RAISE'
+            return '?'
+        if isinstance(e, ast.UnaryOp) and isinstance(e.op, ast.Not):
+            t = truth(ev(e.operand, env))
+            return (not t) if isinstance(t, bool) else '?'
+        if isinstance(e, ast.Compare) and len(e.ops) == 1:
+            a, b = ev(e.left, env), ev(e.comparators[0], env)
+            if isinstance(e.ops[0], (ast.Is, ast.IsNot)) and (a is None or b is None):
+                o = a if b is None else b
+                if o in ('NODE', 'FIRST', 'LAST', 'WALK'):
+                    return isinstance(e.ops[0], ast.IsNot)
+                if o is None:
+                    return isinstance(e.ops[0], ast.Is)
+                return '?'
+            if a == 'N' and isinstance(b, int) and not isinstance(b, bool) and b in (0, 1):     # N >= 2
+                return {ast.Gt: True, ast.GtE: True, ast.NotEq: True, ast.Eq: False, ast.Lt: False, ast.LtE: False}.get(type(e.ops[0]), '?')
+            if isinstance(a, int) and isinstance(b, int) and not isinstance(a, bool) and not isinstance(b, bool):
+                return {ast.Gt: a > b, ast.GtE: a >= b, ast.NotEq: a != b, ast.Eq: a == b, ast.Lt: a < b, ast.LtE: a <= b}.get(type(e.ops[0]), '?')
+            return '?'
+        if isinstance(e, ast.IfExp):
+            t = truth(ev(e.test, env))
+            return ev(e.body if t else e.orelse, env) if isinstance(t, bool) else '?'
+        if isinstance(e, ast.BoolOp):
+            v = '?'
+            for x in e.values:
+                v = ev(x, env)
+                t = truth(v)
+                if not isinstance(t, bool):
+                    return '?'
+                if t == isinstance(e.op, ast.Or):
+                    return v
+            return v
+        return '?'
+
+    def truth(v):
+        if isinstance(v, bool):
+            return v
+        if v is None:
+            return False
+        if isinstance(v, int):
+            return v != 0
+        if v == 'N':
+            return True
+        if v == 'WALK_SEQ':
+            return many
+        if v in ('NODE', 'FIRST', 'LAST'):
+            return True
+        return '?'
+
+    def run(stmts, env):
+        """returns False when every path through stmts has returned"""
+        for st in stmts:
+            if isinstance(st, ast.Expr) and isinstance(st.value, ast.Constant):
+                continue
+            if isinstance(st, ast.Pass):
+                continue
+            if isinstance(st, (ast.Assign, ast.AnnAssign)) and (st.value is not None):
+                tg = st.targets if isinstance(st, ast.Assign) else [st.target]
+                if len(tg) == 1 and isinstance(tg[0], ast.Name):
+                    v = ev(st.value, env)
+                    # a materialised walk (list / tuple) has a truth value, the generator itself does not
+                    if v == 'WALK' and isinstance(st.value, ast.Call) and ast.unparse(st.value.func) in ('list', 'tuple'):
+                        env[tg[0].id + '#seq'] = True
+                    env[tg[0].id] = v
+                    continue
+                out.add('?')
+                return False
+            if isinstance(st, ast.Return):
+                out.add(ev(st.value, env) if st.value is not None else None)
+                return False
+            if isinstance(st, ast.For) and isinstance(st.target, ast.Name) and ev(st.iter, env) == 'WALK' and not st.orelse:
+                simple = all(isinstance(b, ast.Pass) or (isinstance(b, ast.Assign) and len(b.targets) == 1 and isinstance(b.targets[0], ast.Name)
+                                                         and isinstance(b.value, ast.Name)) for b in st.body)
+                if not simple:
+                    out.add('?')
+                    return False
+                if many:
+                    env[st.target.id] = 'LAST'
+                    for b in st.body:
+                        if isinstance(b, ast.Assign):
+                            env[b.targets[0].id] = ev(b.value, env)
+                continue
+            if isinstance(st, ast.If):
+                tv = st.test
+                if isinstance(tv, ast.Name) and env.get(tv.id) == 'WALK' and env.get(tv.id + '#seq'):
+                    t = many
+                elif isinstance(tv, ast.UnaryOp) and isinstance(tv.op, ast.Not) and isinstance(tv.operand, ast.Name) and \
+                        env.get(tv.operand.id) == 'WALK' and env.get(tv.operand.id + '#seq'):
+                    t = not many
+                else:
+                    t = truth(ev(tv, env))
+                if not isinstance(t, bool):
+                    out.add('?')
+                    return False
+                if not run(st.body if t else st.orelse, env):
+                    return False
+                continue
+            out.add('?')
+            return False
+        return True
+
+    env = {}
+    # truth value of a materialised walk inside expressions (x[-1] if x else node)
+    _ev = ev
+
+    def ev(e, env):      # noqa: F811
+        if isinstance(e, ast.IfExp) or isinstance(e, ast.BoolOp) or (isinstance(e, ast.UnaryOp) and isinstance(e.op, ast.Not)):
+            def tr(x):
+                if isinstance(x, ast.Name) and env.get(x.id) == 'WALK':
+                    return many if env.get(x.id + '#seq') else '?'
+                if isinstance(x, ast.UnaryOp) and isinstance(x.op, ast.Not):
+                    t = tr(x.operand)
+                    return (not t) if isinstance(t, bool) else '?'
+                return truth(_ev(x, env))
+            if isinstance(e, ast.IfExp):
+                t = tr(e.test)
+                return ev(e.body if t else e.orelse, env) if isinstance(t, bool) else '?'
+            if isinstance(e, ast.UnaryOp):
+                t = tr(e.operand)
+                return (not t) if isinstance(t, bool) else '?'
+        return _ev(e, env)
+    if run(fnode.body, env):
+        out.add(None)
+    return out
+
+
 def r7_span_walk(ctx):
     """R7: the walk that collects the elements of one span (prev_node_generator / next_node_generator, hence span_loss,
     padding and find_first/last_node) continues over exactly the pairs (neighbour, node) where one is a Fused and the
@@ -492,11 +649,11 @@ def r7_span_walk(ctx):
                   'the backward and the forward span walks accept different class pairs')
     for fname, gen in (('find_first_node', 'prev_node_generator'), ('find_last_node', 'next_node_generator')):
         f = repo.func(NW, fname)
-        from ..pattern import mbody
-        body = [b for b in f.node.body if not (isinstance(b, ast.Expr) and isinstance(b.value, ast.Constant))]
-        b = mbody(f'V_t = {f.params[1]}\nfor V_t in {gen}({f.params[0]}, {f.params[1]}):\n    pass\nreturn V_t', body)
-        ctx.check('R7.span-walk', site(f), b is not None, key(f, 'last-of-walk'),
-                  f'{fname} does not return the last element of the {gen} walk (the node itself when the walk is empty)')
+        res = {case: _end_of_walk(f.node, gen, f.params[0], f.params[1], case) for case in ('empty', 'many')}
+        ok = res['empty'] == {'NODE'} and res['many'] == {'LAST'}
+        ctx.check('R7.span-walk', site(f), ok, key(f, 'last-of-walk'),
+                  f'{fname} does not return the last element of the {gen} walk (the node itself when the walk is empty): '
+                  f'empty walk -> {sorted(res["empty"])}, walk of several elements -> {sorted(res["many"])}')
     ctx.need('R7.span-walk', 9)
 
 
